@@ -110,3 +110,52 @@ Proof.
   rewrite (convert_o_is_write_all bytes (reparsed_list 0 ms) st [] Hr); [exact Hw2|].
   rewrite <- (Forall2_len _ _ _ Hf). unfold reparsed_list. rewrite expect_list_indices. unfold segs_of. rewrite map_length. reflexivity.
 Qed.
+
+(* ------------------------------------------------------------------ the `-o` path *)
+Lemma overwrite_nil b : overwrite [] b = b.
+Proof. unfold overwrite. rewrite skipn_nil. apply app_nil_r. Qed.
+
+(* File::create truncates: the writer starts from the empty file whatever the path held *)
+Lemma open_for_write_create prior : open_for_write FILE_CREATE_TRUNCATES prior = [].
+Proof. reflexivity. Qed.
+
+(* the path holds exactly what the writer wrote *)
+Theorem convert_o_path_is_convert_o prior data :
+  convert_o_path prior data =
+  match convert_o data with
+  | Ok (WOk b) => Ok (Some b)
+  | Ok (WErr p) => Ok (Some p)
+  | Panic s => Panic s
+  | OutOfFuel => OutOfFuel
+  end.
+Proof.
+  unfold convert_o_path. rewrite open_for_write_create.
+  destruct (convert_o data) as [[b|p]|s|]; rewrite ?overwrite_nil; reflexivity.
+Qed.
+
+Theorem convert_o_path_prior_irrelevant prior1 prior2 data : convert_o_path prior1 data = convert_o_path prior2 data.
+Proof. rewrite !convert_o_path_is_convert_o. reflexivity. Qed.
+
+Lemma convert_o_chain_length : forall datas prior, length (convert_o_chain prior datas) = length datas.
+Proof. induction datas as [|d r IH]; intros prior; cbn [convert_o_chain length]; [reflexivity|]. rewrite IH. reflexivity. Qed.
+
+(* every state of the chain: that of the respective command run on a fresh path *)
+Theorem convert_o_chain_each : forall datas prior, convert_o_chain prior datas = map (convert_o_path None) datas.
+Proof.
+  induction datas as [|d r IH]; intros prior; cbn [convert_o_chain map]; [reflexivity|].
+  rewrite IH. f_equal.
+Qed.
+
+(* ... in particular its final state is that of the last command run on a fresh path *)
+Theorem convert_o_chain_last datas prior d dflt :
+  last (convert_o_chain prior (datas ++ [d])) dflt = convert_o_path None d.
+Proof. rewrite convert_o_chain_each, map_app. cbn [map]. apply last_last. Qed.
+
+(* what the truncation is needed for: a writer that starts from the old content leaves the old tail behind *)
+Lemma overwrite_keeps_tail c b :
+  (length b < length c)%nat -> overwrite (open_for_write false (Some c)) b = b ++ skipn (length b) c /\ overwrite (open_for_write false (Some c)) b <> b.
+Proof.
+  intros H. split; [reflexivity|]. unfold overwrite, open_for_write. intros E.
+  assert (L : length (b ++ skipn (length b) c) = length b) by (rewrite E; reflexivity).
+  rewrite app_length, skipn_length in L. lia.
+Qed.
